@@ -297,6 +297,7 @@ func (x *Exec) assignStmt(fr *Frame, s *ast.AssignStmt, st *State, k func(*State
 			if _, isMap := x.typeOf(fr, r.X).Underlying().(*types.Map); isMap {
 				x.expr(fr, r.X, st, func(st *State, mv Value) {
 					x.expr(fr, r.Index, st, func(st *State, kv Value) {
+						x.guardCheckIndexed(st, mapKeyStr(mv.(MapV)), mv.(MapV).ID, false)
 						v, ok := x.mapGet(st, mv.(MapV), x.keyTerm(st, kv))
 						assignAll(st, []Value{v, BoolV{ok}})
 					})
